@@ -176,4 +176,24 @@ pub fn run(ctx: &mut Ctx) {
             if r.as_ref().map(|x| x.is_err()).unwrap_or(true) && ctx.rng.chance(50) { break; }
         }
     }
+    // one compiled source that fails twice: `run` stops at the first failing word; the cause is removed (values are
+    // pushed) and `run` is called again: it resumes, and the second failure has its own location, not the first one's
+    for _ in 0..(ctx.n / 25).max(20) {
+        let mut xs = Xstate::boot().unwrap();
+        xs.intercept_stdout(true);
+        let (w1, need): (&str, usize) = *ctx.rng.pick(&[("drop", 1), ("dup", 1), ("swap", 2), ("+", 2), ("rot", 3)]);
+        let (second, tok2): (&str, &str) = *ctx.rng.pick(&[("10 0 /", "/"), ("\"x\" 1 +", "+"), ("[ ] 0 get", "get"), ("1 0 rem", "rem")]);
+        let filler = *ctx.rng.pick(&["", "1 drop ", "\"ü\" drop "]);
+        let text = format!("{}\n{}{}\n", w1, filler, second);
+        ctx.tag("kind:two-failures-one-source");
+        let case = format!("C17 compile `{}`, run, push {} values, run", text.escape_debug(), need);
+        if !matches!(crate::guarded(|| xs.compile(&text)), Some(Ok(()))) { ctx.oracle_fail(case.clone(), "compiles".into(), "rejected".into()); continue; }
+        let r1 = crate::guarded(|| xs.run());
+        let loc1 = xs.last_err_location().map(|l| (l.line, l.token.to_string()));
+        ctx.check(matches!(r1, Some(Err(_))) && loc1 == Some((0, w1.to_string())), || case.clone(), || format!("first run fails at `{}` on line 0", w1), || format!("{:?} at {:?}", r1, loc1));
+        for i in 0..need { xs.push_data(Cell::Int(i as Xint + 1)).unwrap(); }
+        let r2 = crate::guarded(|| xs.run());
+        let loc2 = xs.last_err_location().map(|l| (l.line, l.token.to_string()));
+        ctx.check(matches!(r2, Some(Err(_))) && loc2 == Some((1, tok2.to_string())), || case.clone(), || format!("second run fails at `{}` on line 1", tok2), || format!("{:?} at {:?}", r2, loc2));
+    }
 }
